@@ -5,7 +5,7 @@ from props import simprops
 HARNESS = ("simh",)
 TRUSTED = ["the trace-level progression is the composition of c10_reinsert (pulled key + period), c10_nothing_due_left (no skipped occurrence), c10_only_live_heads_fire (nothing spurious); the composition is checked by correspondence, by the driver-event oracle and by cross-partition comparison on the implementation"]
 ASSUMPTIONS = []
-ORACLES = (oracles.o_harness, oracles.o_driver_events, oracles.o_time)
+ORACLES = (oracles.o_harness, oracles.o_driver_events, oracles.o_time, oracles.o_model_periodic)
 
 
 def fired(obs):
@@ -31,6 +31,15 @@ def tie(rep, tier, rng, model_ok):
             cases.append({"models": [m], "sinks": [], "mode": "seq", "tags": {"periodic", "ss-oracle"}, "t0": 0, "clock": [], "cmds": cmds,
                           "sources": [[("all", 0, ("m", 0, k))] for k in range(4)]})
         groups.append(g)
+    for _ in range(n // 3):
+        m, setup, series, horizon = simgen.gen_periodic_model(rng)
+        g = []
+        for kind in ("big", "unit", "mixed"):
+            cmds = list(setup) + simgen.partition_cmds(rng, horizon, [], kind)
+            g.append(len(cases))
+            cases.append({"models": [m], "sinks": [], "mode": "seq", "tags": {"periodic", "model-periodic"}, "t0": 0, "clock": [], "cmds": cmds,
+                          "sources": [], "meta": {"series": series}})
+        groups.append(g)
     dis, orc, lm, mo, res = simcheck.compare_cases(rep, "partitions", cases, model_ok, oracles=ORACLES,
                                                    thread_counts=(1, 3) if q else (1, 2, 4, 8),
                                                    nontrivial=lambda c, o: len(fired(o)) >= 4)
@@ -52,7 +61,7 @@ def tie(rep, tier, rng, model_ok):
     rep.cov["parts"]["partitions"]["partition_dependent_groups"] = bad
     b = [simgen.gen_sched(rng) for _ in range(150 if q else 4000)]
     simprops.run(rep, "C10", model_ok, [("sched-1thread", b, (1,), ORACLES, lambda c, o: "periodic" in c.get("tags", ()))],
-                 "1-4 periodic series, model-input events and EventSource events (periods 1,2,3,4,6,10 ns; first deadlines 1..12) with coincidences and cancel points, horizon 15..40 cut into 4 partitions per bench (one step_until, unit steps, two random mixes); all partitions must produce the same (input, payload, time) firing sequence, equal to the model's; + general scheduling benches. non-trivial = >=4 occurrences fired")
+                 "1-4 periodic series, model-input events and EventSource events scheduled by the driver, or 1-2 series armed by the model on itself (oracle: every occurrence first + k*period up to the time reached has run, once, when the stepping call returns) (periods 1,2,3,4,6,10 ns; first deadlines 1..12) with coincidences and cancel points, horizon 15..40 cut into 4 partitions per bench (one step_until, unit steps, two random mixes); all partitions must produce the same (input, payload, time) firing sequence, equal to the model's; + general scheduling benches. non-trivial = >=4 occurrences fired")
 
 
 def replay(rep, path, model_ok):
